@@ -411,8 +411,9 @@ class H:
         """dids: [(did | -1, shape)] ; ios: [(did | -1, shape, has_mask, mask_size | -1, [mask values])]"""
         self.cfg = list(cfgv if cfgv is not None else DEFAULT_CFG)
         if len(self.cfg) == CFG_LEN:
-            dids = dids or []
-            ios = ios or []
+            from harness import callreg_ext
+            dids = callreg_ext.DIDS if dids is None else dids
+            ios = callreg_ext.IOS if ios is None else ios
             self.cfg += [len(dids)] + [x for d in dids for x in d]
             self.cfg += [len(ios)]
             for did, sh, hm, ms, masks in ios:
